@@ -61,7 +61,12 @@ struct Sched {
   uint64_t pct_horizon = 20000;   // POL_PCT: change points drawn in [0,horizon)
   int rr_q = 1;                   // POL_RR: quantum
   bool plain_points = true;       // are the optional plain-read points active
-  uint64_t budget = 20000000ull;  // scheduling points per run
+  // liveness: a run is declared non-terminating when `budget` scheduling
+  // points pass without any global progress event (the second half of them
+  // under the fair uniform policy); a run that keeps making progress is
+  // abandoned as inconclusive after `total_cap` points
+  uint64_t budget = 20000000ull;
+  uint64_t total_cap = 600000000ull;
   uint64_t demote_after = 300;    // PCT: demote after this many idle points
   int ticks_jitter = 0;           // cpucycle jitter amplitude
   // POL_REPLAY: sparse list of (decision index, fiber)
@@ -80,7 +85,8 @@ struct RunStats {
   uint64_t switches = 0;  // context switches actually performed
   uint64_t regions = 0;   // parallel regions executed
   uint64_t max_team = 0;
-  bool aborted = false;   // budget exhausted (non-termination verdict)
+  bool aborted = false;   // run was cut short (see inconclusive)
+  bool inconclusive = false; // cut short by total_cap while still progressing
   bool fair_phase = false; // second half of the budget was entered
   std::string abort_reason;
   std::vector< std::pair< uint64_t, int > > executed; // non-default decisions
@@ -111,6 +117,7 @@ void fold(uint64_t x);    // fold into the event-log hash
 void fold_str(const char *s);
 void probe(const char *name, uint64_t n = 1);
 void mark_progress();     // current fiber did useful work
+void global_progress();   // the system as a whole made progress (liveness)
 void harness_yield(const void *addr = nullptr); // explicit scheduling point
 int lock_holder(const void *addr);              // fiber holding lock, or -1
 // lock tracking at the level of individual std::atomic operations (used by
